@@ -459,8 +459,8 @@ var customInit map[string]func(p *Path, pkg *ssa.Package)
 
 func init() {
 	customInit = map[string]func(p *Path, pkg *ssa.Package){
-		"errors": func(p *Path, pkg *ssa.Package) {}, // errorType is only used by errors.As (an intrinsic)
-	"syscall": func(p *Path, pkg *ssa.Package) {}, // environment and error-string tables are not needed
+		"errors":  func(p *Path, pkg *ssa.Package) {}, // errorType is only used by errors.As (an intrinsic)
+		"syscall": func(p *Path, pkg *ssa.Package) {}, // environment and error-string tables are not needed
 		"os": func(p *Path, pkg *ssa.Package) {
 			// the sentinel errors are the io/fs ones
 			fspkg := p.eng.pkgByID["io/fs"]
